@@ -118,7 +118,8 @@ pub fn run_case(cx: &Ctx, rng: &mut Rng, spec: CaseSpec) -> CaseLog {
     let plan = spec.plan.clone();
     cx.srv.on(&spec.id, Arc::new(move |_r: &Req| plan.clone()));
     let mut req = mirror::to_ipp(&spec.request);
-    let src = attach_payload(rng, spec.kind, &mut req, &spec.request.data);
+    // the "no response head" cases without a payload use a genuinely empty payload (IppPayload::empty())
+    let src = if spec.id.starts_with('h') && spec.request.data.is_empty() { "none" } else { attach_payload(rng, spec.kind, &mut req, &spec.request.data) };
     let result = match spec.kind {
         Kind::Blocking => send_blocking(&blocking_client(&uri, &spec.cfg), req),
         Kind::Async => send_async(cx.rt, &async_client(&uri, &spec.cfg), req),
@@ -355,6 +356,36 @@ pub fn run(args: &Args, tier: &str, seed: u64, backend: &str) -> Report {
         specs.push((CaseSpec { id, kind, scheme: "http", cfg, request: gen_request(&mut rng, 100), plan, expect: Expect::MustErr(format!("timeout: the server stalled 6000 ms {} the response with request_timeout = 500 ms", if *inside { "inside" } else { "before" })), what: format!("stall {} response, timeout 500ms", if *inside { "inside" } else { "before" }) }, seed ^ 0xD000 ^ i as u64));
     }
 
+    // ---- D3: failures BEFORE the HTTP response head is complete (nothing sent / cut inside the status line or headers / stall),
+    //          with and without a request payload: still exactly one POST, and an error
+    for (i, cutw) in [Some(0usize), Some(5), Some(12), Some(25), None].iter().enumerate() {
+        for with_payload in [false, true] {
+            for kind in [Kind::Blocking, Kind::Async] {
+                let id = mk_id("h");
+                let mut rng = Rng::fork(seed ^ 0xC11D3, (i * 4 + with_payload as usize * 2 + (kind == Kind::Async) as usize) as u64);
+                let resp = gen_response(&mut rng);
+                let mut plan = Plan::ok(crate::ref_bytes(&resp));
+                let mut cfg = ClientCfg::default();
+                let what = match cutw {
+                    Some(c) => {
+                        plan.cut_wire_at = Some(*c);
+                        format!("connection closed after {c} bytes of the HTTP response head")
+                    }
+                    None => {
+                        plan.stall_before_ms = 5000;
+                        cfg.timeout_ms = Some(500);
+                        "server silent for 5000 ms with request_timeout = 500 ms".to_string()
+                    }
+                };
+                let mut request = gen_request(&mut rng, if with_payload { 200 } else { 0 });
+                if !with_payload {
+                    request.data.clear();
+                }
+                specs.push((CaseSpec { id, kind: *(&kind), scheme: "http", cfg, request, plan, expect: Expect::MustErr(format!("no-response: {what} ({} request payload)", if with_payload { "with" } else { "without" })), what: format!("{what}, {} payload", if with_payload { "with" } else { "no" }) }, seed ^ 0xD300 ^ i as u64));
+            }
+        }
+    }
+
     // ---- D2: a server that is slow in total but never silent for as long as the timeout (trickle)
     for (i, kind) in [Kind::Blocking, Kind::Async].iter().enumerate() {
         let id = mk_id("t");
@@ -409,6 +440,7 @@ pub fn run(args: &Args, tier: &str, seed: u64, backend: &str) -> Report {
             Some('s') => rep.count("error_status_cases", 1),
             Some('c') => rep.count("cut_cases", 1),
             Some('t') => rep.count("timeout_cases", 1),
+            Some('h') => rep.count("no_response_head_cases", 1),
             _ => {}
         }
         judge(&mut rep, srv.port, log, &replay_for(&log.spec.id));
@@ -422,7 +454,7 @@ pub fn run(args: &Args, tier: &str, seed: u64, backend: &str) -> Report {
     srv.stop();
     rep.extra.insert("tls_backend_of_this_build".into(), J::Str(backend.to_string()));
     rep.extra.insert("peer_events_logged".into(), J::Int(srv.log.lock().unwrap().len() as i64));
-    rep.rule = "Live loopback peer (raw std::net HTTP/1.1 server with an event log) x both clients. (A) random exchanges: G1 requests with payloads 0 B..MiBs from fragmented / interrupted / not-ready blocking and async sources, random custom headers, Basic credentials, ipp:// and http:// targets with path+query, responses under content-length / chunked / close-delimited framing with write fragmentation; (B) HTTP statuses 4xx/5xx (quick: 20 registered ones, thorough: all 400..599) carrying a valid IPP body; (C) connection cut at EVERY offset inside the response's header+attributes under each framing; (D) server stalled before / inside the response, or trickling it in small pieces over several seconds, with request_timeout set; (E) 16 concurrent senders x 20 sends through one client. Offline checker over the joined client-call / peer-event logs: exactly one POST per send, exact target and Host, Content-Type, custom headers, Basic credentials, body decoding (reference decoder) to exactly the request + payload; returned response == scripted response incl. trailing data; error cases must be Err; concurrent calls matched to their own responses by unique request-id + marker. evaluations = sends judged.".into();
+    rep.rule = "Live loopback peer (raw std::net HTTP/1.1 server with an event log) x both clients. (A) random exchanges: G1 requests with payloads 0 B..MiBs from fragmented / interrupted / not-ready blocking and async sources, random custom headers, Basic credentials, ipp:// and http:// targets with path+query, responses under content-length / chunked / close-delimited framing with write fragmentation; (B) HTTP statuses 4xx/5xx (quick: 20 registered ones, thorough: all 400..599) carrying a valid IPP body; (C) connection cut at EVERY offset inside the response's header+attributes under each framing; (D) connection closed or server silent before the HTTP response head is complete (with and without a request payload), server stalled before / inside the response, or trickling it in small pieces over several seconds, with request_timeout set; (E) 16 concurrent senders x 20 sends through one client. Offline checker over the joined client-call / peer-event logs: exactly one POST per send, exact target and Host, Content-Type, custom headers, Basic credentials, body decoding (reference decoder) to exactly the request + payload; returned response == scripted response incl. trailing data; error cases must be Err; concurrent calls matched to their own responses by unique request-id + marker. evaluations = sends judged.".into();
     if only.is_none() {
         rep.require(rep.sets.get("response_framings").map(|s| s.len()).unwrap_or(0) == 3, "all three response framings exercised");
         rep.require(rep.counters.get("cut_cases").copied().unwrap_or(0) >= 300, "cut offsets enumerated");
